@@ -148,9 +148,10 @@ Definition check (c : case) : bool :=
       list_eqb (option_eqb Bool.eqb) (snd (gate_run named u conn0 ops)) obs
   | CBackup wc pc piw obs => set_eqb (backup_chans wc pc piw) obs
   | CStamp wa na nw obs => set_eqb (stamped_atts wa na nw) obs
-  | CKind named u od k obs => kind_matches (respond named u k od) obs
+  | CKind named u od k obs =>
+      kind_matches (match k with KDelta from to => RDelta (delta_impl named u od from to) | _ => respond named u k od end) obs
   | CProve v3 named u pre legacy k obs =>
-      option_eqb Bool.eqb (Some (prove_serves v3 (c_gate (fst (gate_run named u conn0 pre))) legacy k)) obs
+      option_eqb Bool.eqb (Some (prove_impl v3 (c_gate (fst (gate_run named u conn0 pre))) legacy k)) obs
   end.
 
 Definition mismatches (cs : list case) : list N := failing check cs.
